@@ -185,7 +185,22 @@ struct StrideKind {
 //! statistics / labels of one tuple (out)
 struct ItStats {
     bool mid_block = false;
+    size_t rank_budget = 0; // in: check at most this many ranks per tuple (0 = no bound), see thin_ranks
+    bool thinned = false;   // out
 };
+
+//! cost bound of the iters targets: keeps rank 0, 1, N-1, N and a pseudo-random subset (seeded by the case) of the other
+//! candidate ranks; the candidates are either all ranks or the boundary-biased sample of sample_ranks, so the bias stays
+inline void thin_ranks(std::vector<ptrdiff_t>& ranks, size_t budget, uint64_t seed) {
+    if (budget < 8 || ranks.size() <= budget) return;
+    std::vector<ptrdiff_t> keep = {ranks[0], ranks[1], ranks[ranks.size() - 2], ranks[ranks.size() - 1]};
+    std::vector<ptrdiff_t> mid(ranks.begin() + 2, ranks.end() - 2);
+    uint64_t s = seed ^ 0x7F4A7C15ull;
+    for (size_t i = 0; i + 1 < mid.size() && i < budget - 4; ++i) std::swap(mid[i], mid[i + (size_t)(splitmix(s) % (uint64_t)(mid.size() - i))]);
+    keep.insert(keep.end(), mid.begin(), mid.begin() + (ptrdiff_t)std::min(mid.size(), budget - 4));
+    std::sort(keep.begin(), keep.end());
+    ranks.swap(keep);
+}
 
 //! the C08 oracle for one tuple on iterator kind K; `defcomp`: never (the comparator is always passed)
 template <class T, class K, class RankT, bool DequeOffsets>
@@ -255,6 +270,10 @@ void check_tuple_it(const std::vector<std::vector<int>>& keys, int cmpmode, bool
         st.sampled = true;
     } else {
         for (ptrdiff_t r = 0; r <= N; ++r) ranks.push_back(r);
+    }
+    if (ist.rank_budget && ranks.size() > ist.rank_budget) {
+        thin_ranks(ranks, ist.rank_budget, st.rank_seed + (uint64_t)N);
+        ist.thinned = true;
     }
     st.ranks_checked += ranks.size();
 
